@@ -19,7 +19,7 @@ def run(rep, tier):
         "entries compared with 1e-12 relative to the largest entry of the row",
         "the give form is not transcribed: it is bound to the take-form table by probing",
     ]
-    tabs = sc.tables(rep, tier, "c03", "ac")
+    tabs = sc.tables(rep, tier, "c03", "ace")
     sc.conformance(rep, tier, tabs, "residual", 160, "residual", threads=(1, 3, 16) if tier == "thorough" else (1, 3), scales=(1.0, 1e-9, 1e7))
     cache_derivation(rep, tier)
     try:
